@@ -54,6 +54,7 @@ class World:
         self.bindfail = False
         self.connect_outcome = "inprog"
         self.hs_outcome = "want"
+        self.send_cap = None
 
     def new_core(self, **kw):
         c = Core(self, len(self.socks), **kw)
@@ -164,8 +165,17 @@ class FakeSock:
         raise OSError(_errno.EIO, "Input/output error")
 
     def send(self, data):
-        self.core.sent.extend(data)
-        return len(data)
+        cap = self.core.world.send_cap      # None: the kernel takes everything; 0: would block; n: takes at most n
+        if cap is None:
+            n = len(data)
+        elif cap == 0:
+            if self.core.tls:
+                raise _ssl.SSLWantWriteError(_ssl.SSL_ERROR_WANT_WRITE, "The operation did not complete (write)")
+            raise BlockingIOError(_errno.EAGAIN, "Resource temporarily unavailable")
+        else:
+            n = min(cap, len(data))
+        self.core.sent.extend(data[:n])
+        return n
 
     # --- TLS side (only reached through FakeContext.wrap_socket)
     def do_handshake(self):
